@@ -557,6 +557,7 @@ REPLY_NOPANIC = {
     "std::option::Option::<T>::is_none": "discriminant test",
     "std::option::Option::<T>::is_some": "discriminant test",
     "std::option::Option::<T>::unwrap_or": "total",
+    "<std::string::String as std::ops::Deref>::deref": "total (pointer and length of the buffer)",
     "std::option::Option::<T>::take": "total (mem::replace with None)", "std::option::Option::<T>::replace": "total",
     "std::option::Option::<T>::as_ref": "total", "std::option::Option::<T>::as_mut": "total",
     "<std::sync::mpsc::TryRecvError as std::cmp::PartialEq>::eq": "derived comparison of a field-less enum",
@@ -614,6 +615,16 @@ def r8_4(ctx):
                 bf = bool_facts(b, ex, bb)
                 ok = any(d[0] == "call" and d[1].endswith("::is_none") and v is False and root_local(d[2][0]) == root_local(a) for d, v in bf.items()) or \
                     any(d[0] == "call" and d[1].endswith("::is_some") and v is True and root_local(d[2][0]) == root_local(a) for d, v in bf.items())
+                if not ok and a[0] == "field" and a[2] == "last_move":
+                    # the move descriptor of the board being announced (what the reply helper unwraps,
+                    # wherever its body lives): Some on every board the search sends (R2.1 / R2.7), so
+                    # it is discharged when that board can only be one received from the channel
+                    sl = data_slice(ex, a[1])
+                    from_recv = any(x[0] == "call" and x[1].endswith("::try_recv") for x in sl)
+                    from_param = any(x[0] in ("arg", "mem") and "BoardState" in b.local_ty(x[1]) for x in sl)
+                    if from_recv and not from_param:
+                        ctx.ob("%s:unwrap(last_move)" % short, True, b.where(loc), "`%s.unwrap()`: the board comes from the search channel only, and every board the search sends carries its move descriptor (R2.1)" % show_expr(a, b)[:50])
+                        continue
                 ctx.ob("%s:unwrap(%s)" % (short, b.lname(root_local(a)) if root_local(a) is not None else "?"), ok, b.where(loc),
                        "`%s.unwrap()` is reached only when the value is known to be Some (loop exit condition)" % show_expr(a, b)[:40])
                 continue
